@@ -688,8 +688,8 @@ def replay(case: Any) -> List[Tuple[str, str]]:
 
 
 def shard(ctx: runner.Ctx) -> None:
-    n_gen = ctx.n(224, 2_400)
-    n_single = ctx.n(64, 800)  # cases that are also run as real single-invocation processes
+    n_gen = ctx.n(192, 2_400)
+    n_single = ctx.n(48, 800)  # cases that are also run as real single-invocation processes
     fsaudit.install()
     base = ctx.scratch
     shm = make_shm()
